@@ -1,3 +1,4 @@
+import Goflow.Wrapped
 import Goflow
 import Goflow.Gen.C05
 import Goflow.Gen.C03
@@ -35,6 +36,8 @@ structure DState where
   pipes : List (String × Pipe.Kind × String) := []
   pstate : List (String × Pipe.State) := []
   staged : List (String × Pipe.Src × Nat × Bytes) := []
+  /-- pipes wired with the panic wrappers of main.go (`pipew`) -/
+  wrapped : List String := []
 
 def DState.cfg (st : DState) (cid : String) : Producer.Config :=
   match st.cfgs.lookup cid with | some c => c.cfg | none => {}
@@ -159,6 +162,14 @@ def execOp (st : DState) (line : String) : DState × Option (List String) :=
         | some e => resLine e
       (st', some ((r ++ " n=" ++ toString o.msgs.length) :: o.msgs.flatMap fun m => m.dump :: Format.fmtLines (st.fmt cid) m))
     | _, _, _ => (st, some ["bad-op"])
+  | ["pipew", pid, kind, cid] =>
+    let k : Option Pipe.Kind := match kind with
+      | "netflow" => some .netflow | "sflow" => some .sflow | "flow" => some .auto | _ => none
+    match k with
+    | none => (st, some ["bad-op"])
+    | some k => ({ st with pipes := (pid, k, cid) :: st.pipes.filter (fun e => e.1 != pid),
+                           pstate := (pid, ({} : Pipe.State)) :: st.pstate.filter (fun e => e.1 != pid),
+                           wrapped := pid :: st.wrapped.filter (· != pid) }, some ["res ok"])
   | ["pipe", pid, kind, cid] =>
     let k : Option Pipe.Kind := match kind with
       | "netflow" => some .netflow | "sflow" => some .sflow | "flow" => some .auto | _ => none
@@ -243,6 +254,12 @@ def execOp (st : DState) (line : String) : DState × Option (List String) :=
     | some (k, cid), some ip, some d =>
       let cfg := st.cfg cid
       let ps := (st.pstate.lookup pid).getD {}
+      if st.wrapped.contains pid then
+        -- main.go's wiring: WrapPanicProducer + PanicDecoderWrapper (Goflow/Wrapped.lean, Proofs/C01Any.lean)
+        let o := Wrapped.decodeFlowW k cfg ps ⟨ip, port.toNat!⟩ recv.toNat! d
+        let st' := { st with pstate := (pid, o.state) :: st.pstate.filter (fun e => e.1 != pid) }
+        (st', some ((Wrapped.resLineW o.err ++ " n=" ++ toString o.msgs.length) :: o.msgs.map FlowMsg.dump))
+      else
       let o := Pipe.decodeFlow k cfg ps ⟨ip, port.toNat!⟩ recv.toNat! d
       let st' := { st with pstate := (pid, o.state) :: st.pstate.filter (fun e => e.1 != pid) }
       let r := match o.err with
